@@ -46,7 +46,7 @@ type ReverseSuffixSetSearcher struct {
 	reverseDFA     *lazy.DFA
 	forwardDFA     *lazy.DFA
 	prefilter      prefilter.Prefilter
-	pikevm         *nfa.PikeVM
+	pikevm         *pooledPikeVM
 	suffixLiterals *literal.Seq // All suffix literals
 	matchStartZero bool         // True if pattern starts with .* (match always starts at 0)
 	revCachePool   sync.Pool
@@ -108,7 +108,7 @@ func NewReverseSuffixSetSearcher(
 	}
 
 	// Create PikeVM for fallback
-	pikevm := nfa.NewPikeVM(forwardNFA)
+	pikevm := newPooledPikeVM(forwardNFA)
 
 	// matchStartZero is true only when pattern has .* prefix (e.g., `.*\.(txt|log|md)`).
 	// Only OpStar(AnyChar) guarantees match starts at 0/at — skip reverse DFA.
